@@ -145,6 +145,15 @@ check_success(const char *ctx)
         if (!rt_area_loads_defaults(&d->area[ai]))
             continue;
         RegisterValue g;
+        if (d->area[ai].noread) {
+            /* nothing can be read back through the table (the storage comparison above has looked at the device
+             * itself); asking is an error, not a crash */
+            RegisterAccess na = register_get(&inst.t, (RegisterHandle)i, &g);
+            if (na.code == REG_ACCESS_SUCCESS)
+                vh_fail("unreadable-register-read", "result=success", "%s: register %d lies in an area without read callback, get reports success", ctx, i);
+            VH_COUNT("register in a write-only device area");
+            continue;
+        }
         RegisterAccess a = register_get(&inst.t, (RegisterHandle)i, &g);
         if (a.code != REG_ACCESS_SUCCESS || (int)g.type != d->reg[i].type
             || rt_bits(d->reg[i].type, g.value) != rt_bits(d->reg[i].type, d->reg[i].def))
@@ -275,11 +284,17 @@ mutate(vh_rng *rg, struct rt_desc *d)
         default:
             if (d->nareas > 0) { /* toggle default loading of an area */
                 struct rt_area *a = &d->area[vh_below(rg, (uint64_t)d->nareas)];
-                if (vh_chance(rg, 1, 2))
+                unsigned how = (unsigned)vh_below(rg, 3);
+                if (how == 0)
                     a->skipdef = !a->skipdef;
-                else {
+                else if (how == 1) {
                     a->custom = 1;
                     a->has_write = 0;
+                } else if (!a->window) {
+                    /* a device that can only be written: defaults are loaded through its write callback all the same */
+                    a->custom = 1;
+                    a->has_write = 1;
+                    a->noread = 1;
                 }
             }
             break;
